@@ -925,7 +925,16 @@ def process_outcome(res: Result, case: dict[str, Any], out, tmp: Path, shrink: b
 
 def _worker_init() -> None:
     os.environ.setdefault("OMP_NUM_THREADS", "1")
+    try:
+        os.setsid()  # own process group: everything a worker starts is killed with it at the end of the run
+    except OSError:
+        pass
     common.quiet_gemseo()
+
+
+def needs_manager(case: dict[str, Any]) -> bool:
+    """Cases that start GEMSEO's multiprocessing manager (MemoryFullCache): run in the main process."""
+    return str(case.get("cache", "")).startswith("MemoryFullCache")
 
 
 def _worker(case: dict[str, Any]):
@@ -1037,10 +1046,19 @@ def run(ctx) -> Result:
 
         n_core = len(core_cases())
         results = []
+        pooled_core = [c for c in cases[:n_core] if not needs_manager(c)]
+        pooled_rest = [c for c in cases[n_core:] if not needs_manager(c)]
+        local = [c for c in cases if needs_manager(c)]
         pool = ProcessPoolExecutor(n_workers, mp_context=multiprocessing.get_context("forkserver"), initializer=_worker_init)
+        pids: list[int] = []
         try:
-            core_futs = [pool.submit(_worker, c) for c in cases[:n_core]]
-            rest_futs = [pool.submit(_worker, c) for c in cases[n_core:]]
+            core_futs = [pool.submit(_worker, c) for c in pooled_core]
+            rest_futs = [pool.submit(_worker, c) for c in pooled_rest]
+            for c in local:  # meanwhile, in this process
+                if time.time() > budget_end and c not in cases[:n_core]:
+                    break
+                results.append(_worker(c))
+            pids = list((getattr(pool, "_processes", None) or {}).keys())
             for f in as_completed(core_futs, timeout=900):
                 results.append(f.result())
             try:
@@ -1049,12 +1067,14 @@ def run(ctx) -> Result:
             except FTimeout:
                 res.notes.append(f"time budget reached after {len(results)} of {len(cases)} differential cases")
         finally:
-            procs = list((getattr(pool, "_processes", None) or {}).values())
+            pids = pids or list((getattr(pool, "_processes", None) or {}).keys())
             pool.shutdown(wait=False, cancel_futures=True)
-            for proc in procs:
+            import signal as _signal
+
+            for pid in pids:
                 try:
-                    proc.terminate()
-                except Exception:  # noqa: BLE001
+                    os.killpg(pid, _signal.SIGKILL)
+                except (ProcessLookupError, PermissionError, OSError):
                     pass
         # deterministic order of reporting
         results.sort(key=lambda co: json.dumps(co[0], sort_keys=True, default=str))
